@@ -26,7 +26,12 @@ POISON = 0xDD
 _libc = ctypes.CDLL(None, use_errno=True)
 _libc.madvise.argtypes = [ctypes.c_void_p, ctypes.c_size_t, ctypes.c_int]
 _libc.madvise.restype = ctypes.c_int
+_libc.mprotect.argtypes = [ctypes.c_void_p, ctypes.c_size_t, ctypes.c_int]
+_libc.mprotect.restype = ctypes.c_int
 MADV_DONTNEED = 4
+PROT_NONE, PROT_RW = 0, 3
+PAGE = 4096
+GUARD_MODES = ("none", "end", "start")
 
 MALLOC_T = ctypes.CFUNCTYPE(ctypes.c_void_p, ctypes.c_size_t)
 CALLOC_T = ctypes.CFUNCTYPE(ctypes.c_void_p, ctypes.c_size_t, ctypes.c_size_t)
@@ -45,9 +50,10 @@ class AllocationRefused(Exception):
 
 
 class Block:
-    __slots__ = ("id", "addr", "size", "cap", "state", "call", "thread", "owner", "kind")
+    __slots__ = ("id", "addr", "size", "cap", "state", "call", "thread", "owner", "kind",
+                 "lead", "tail", "region", "prot")
 
-    def __init__(self, id, addr, size, cap, call, thread, kind):
+    def __init__(self, id, addr, size, cap, call, thread, kind, lead=0, tail=0, region=None):
         self.id = id
         self.addr = addr
         self.size = size  # requested size
@@ -57,6 +63,10 @@ class Block:
         self.thread = thread
         self.owner = None
         self.kind = kind  # malloc | calloc | realloc | input
+        self.lead = lead  # red-zone bytes in front of the block
+        self.tail = tail  # red-zone bytes behind the block's capacity
+        self.region = region  # guard mode: (start, end) of the pages that belong to this block alone
+        self.prot = False  # guard mode: the block's pages were made inaccessible on release
 
     def __repr__(self):
         return f"<block {self.id} size={self.size} {self.state} call={self.call}>"
@@ -76,6 +86,7 @@ class Heap:
         self.shim = None
         self.bump = self.base + 4096
         self.region_start = self.bump
+        self.high = self.bump  # highest address that may carry a page protection
         self.blocks: dict[int, Block] = {}
         self.by_id: dict[int, Block] = {}
         self.seq = 0
@@ -105,9 +116,16 @@ class Heap:
 
     # ------------------------------------------------------------------ knobs
     def configure(self, garbage=0xA5, redzone=0xCA, rz=64, realloc="move", zero="unique",
-                  poison=POISON):
+                  poison=POISON, guard="none"):
+        """guard: "end" places every block so that its last byte is the last byte of a page that is
+        followed by an inaccessible page, "start" so that its first byte follows one (electric-fence
+        placement): a read or write one element past that side of ANY array - input or kernel
+        allocated, whether or not the value read influences anything - faults at once.  Released and
+        moved blocks become inaccessible as well, so any use of a stale pointer faults too."""
         assert garbage != redzone and 16 <= rz <= 4096 and rz % 16 == 0
-        assert realloc in REALLOC_POLICIES and zero in ZERO_POLICIES
+        assert realloc in REALLOC_POLICIES and zero in ZERO_POLICIES and guard in GUARD_MODES
+        assert not (guard != "none" and realloc == "size_class")
+        self.guard = guard
         self.garbage = garbage
         self.redzone = redzone
         self.rz = rz
@@ -150,6 +168,9 @@ class Heap:
             if not live:
                 _libc.madvise(lo, ((self.bump + 4095) & ~4095) - lo, MADV_DONTNEED)
         if not live:
+            if self.high > self.base + 4096:
+                _libc.mprotect(self.base, ((self.high + PAGE - 1) & ~(PAGE - 1)) - self.base + PAGE, PROT_RW)
+            self.high = self.base + 4096
             self.bump = self.base + 4096
         else:
             self.bump = (self.bump + 4095) & ~4095
@@ -180,7 +201,45 @@ class Heap:
             ctypes.memset(addr, byte, EDGE)
             ctypes.memset(addr + n - EDGE, byte, EDGE)
 
+    def _new_guarded(self, n, kind, fill):
+        rz = self.rz
+        start = (self.bump + PAGE - 1) & ~(PAGE - 1)
+        if self.guard == "end":
+            npages = max(1, (rz + n + PAGE - 1) // PAGE)
+            end = start + npages * PAGE
+            addr = end - n
+            lead, tail = addr - start, 0
+            guard_at = end
+            new_bump = end + PAGE
+            region = (start, end)
+        else:
+            guard_at = start
+            addr = start + PAGE
+            lead, tail = 0, rz
+            new_bump = (addr + n + rz + PAGE - 1) & ~(PAGE - 1)
+            region = (addr, new_bump)
+        if n > MAX_BLOCK or new_bump + 64 > self.region_start + MAX_RUN_BYTES or new_bump + 64 > self.end:
+            raise AllocationRefused(n)
+        if _libc.mprotect(guard_at, PAGE, PROT_NONE) != 0:
+            raise AllocationRefused(n)  # out of mappings: a runaway kernel
+        self.bump = new_bump
+        self.high = max(self.high, new_bump)
+        if lead:
+            ctypes.memset(addr - lead, self.redzone, lead)
+        self._fill(addr, n, self.garbage if fill is None else fill)
+        if tail:
+            ctypes.memset(addr + n, self.redzone, tail)
+        self.seq += 1
+        th = threading.current_thread()
+        b = Block(self.seq, addr, n, n, getattr(th, "sim_call", None) or self.current_call,
+                  getattr(th, "sim_id", None), kind, lead, tail, region)
+        self.blocks[addr] = b
+        self.by_id[b.id] = b
+        return b
+
     def _new(self, n, kind, fill=None, cap=None):
+        if self.guard != "none":
+            return self._new_guarded(n, kind, fill)
         rz = self.rz
         if cap is None:
             cap = _size_class(n) if self.realloc_policy == "size_class" else n
@@ -203,7 +262,8 @@ class Heap:
         self.seq += 1
         th = threading.current_thread()
         t = getattr(th, "sim_id", None)
-        b = Block(self.seq, addr, n, cap, getattr(th, "sim_call", None) or self.current_call, t, kind)
+        b = Block(self.seq, addr, n, cap, getattr(th, "sim_call", None) or self.current_call, t, kind,
+                  rz, rz)
         self.blocks[addr] = b
         self.by_id[b.id] = b
         return b
@@ -352,6 +412,10 @@ class Heap:
     def _release(self, b: Block, state: str):
         b.state = state
         self._fill(b.addr, b.size, self.poison)
+        if b.region is not None:
+            # guard mode: the pages of a released block become inaccessible (stale pointers fault)
+            if _libc.mprotect(b.region[0], b.region[1] - b.region[0], PROT_NONE) == 0:
+                b.prot = True
 
     # ----------------------------------------------------------- free() side
     def drain(self):
@@ -400,11 +464,11 @@ class Heap:
         self.drain()
         errs = list(self.errors)
         self.errors = []
-        rz = self.rz
         for b in (self.blocks.values() if blocks is None else blocks):
-            if b.call == "stale":
+            if b.call == "stale" or b.prot:
                 continue
-            if not self._all(b.addr - rz, rz, self.redzone):
+            rz = b.tail
+            if b.lead and not self._all(b.addr - b.lead, b.lead, self.redzone):
                 errs.append(("underflow", b.id, b.size, b.kind, b.call))
             tail = b.cap - b.size + rz
             if b.state == "live":
